@@ -311,3 +311,18 @@ Definition strip_std (g : graph) : graph :=
 Definition run_case5 (items : list (graph * list (N * Z) * list (N * Z))) (others rule_hs : list graph) : tok :=
   L [run_case4 items others rule_hs;
      tlist (fun it : graph * list (N * Z) * list (N * Z) => tlist tN (nauty_perm (strip_std (fst (fst it))))) items].
+
+(* NautyCanonicalizer.compute_orbits (union-find over the positions of the best permutation, fed with the reported
+   permutations): the classes of the equivalence generated by the pairs (best_i, reported_i).  [rep] maps a node to the
+   representative of its class; uniting a and b redirects the class of b to the representative of a. *)
+Definition union_rep (a b : N) (rep : N -> N) : N -> N :=
+  let ra := rep a in let rb := rep b in fun z => let rz := rep z in if N.eqb rz rb then ra else rz.
+Definition orbit_rep (first : list N) (auts : list (list N)) : N -> N :=
+  fold_left (fun rep q => fold_left (fun rep ab => union_rep (fst ab) (snd ab) rep) (combine first q) rep) auts (fun z => z).
+Definition orbit_classes (first : list N) (auts : list (list N)) : list (list N) :=
+  let rep := orbit_rep first auts in
+  map (fun k => filter (fun v => N.eqb (rep v) k) first) (nodup N.eq_dec (map rep first)).
+Definition nauty_orbits (g : graph) : list (list N) := orbit_classes (nauty_perm g) (snd (nauty_acc g)).
+Definition run_case6 (items : list (graph * list (N * Z) * list (N * Z))) (others rule_hs : list graph) : tok :=
+  L [run_case5 items others rule_hs;
+     tlist (fun it : graph * list (N * Z) * list (N * Z) => tset (tset tN) (nauty_orbits (fst (fst it)))) items].
